@@ -301,4 +301,11 @@ def run(chk: Check):
     from .c08 import rule_l1, rule_l5
     rule_l5(chk, ix)
     rule_l1(chk, ix)   # error positions are token positions
+    from .. import constfold, macros
+    from .c02 import rule_path_literal_gate, rule_path_literal_wrap
+    from .c09 import rule_k1
+    macros.rule_n2(chk, ix, repo.ir_x())   # a stale path-literal marker relocates later string nodes (and the errors reported at them)
+    rule_path_literal_gate(chk)
+    rule_path_literal_wrap(chk)
+    rule_k1(chk, constfold.fold_tokenize(), False)   # what reaches ast.literal_eval is what the number patterns let through
     chk.units["functions"] = len(ix.funcs)
